@@ -173,3 +173,71 @@ def explore_validate(ctx, rp, rmix, wmix, tag, runs):
                       "(mix %s|%s, %s): line %d: %s" % (rmix, wmix, res.violation, matched + 1, bad.strip()[:400]),
                       txt + "".join(lines[:matched + 1]), kind="ndjson")
     os.remove(trace)
+
+
+# ------------------------------------------------------------------------------------------------------------
+# finest grain (FutureFine.tla): atomic operation and the thread-local code after it are separate steps
+# ------------------------------------------------------------------------------------------------------------
+FSITE = {"mclaim": "mclaim_own", "fstore": "flagstore"}
+
+
+def fine_pend(pc):
+    if pc in ("done", "tdone"):
+        return "done"
+    kind, _, rest = pc.partition("_")
+    for suf in ("_ok", "_fail"):
+        if rest.endswith(suf):
+            rest = rest[: -len(suf)]
+    return "%s:%s" % (kind, FSITE.get(rest, rest))
+
+
+def proj_fine(st, rk, wk):
+    st = fix_empty(dict(st))
+    owner = st["owner"]
+    for r, k in rk.items():
+        if k == "dtor" and st["rpc"][r] == "done":
+            owner = "null"
+    pend = {r: fine_pend(pc) for r, pc in (st["rpc"] or {}).items()}
+    pend.update({w: fine_pend(pc) for w, pc in (st["wpc"] or {}).items()})
+    return {
+        "allocs": 0,
+        "chain": chain_of(st),
+        "cbnext": {w: st["nxt"][w] for w, k in wk.items() if k == "cb"},
+        "owner": owner,
+        "pend": pend,
+        "res": st["rres"] or {},
+        "resumes": st["resumes"] or {},
+        "seen": st["seen"] or {},
+        "tag": st["tag"],
+        "payload": st["payload"],
+    }
+
+
+def run_mix_fine(ctx, rp, rmix, wmix, tag, max_paths=None):
+    consts, rk, wk = mix_constants(rmix, wmix)
+    must = ["SwapReady", "LSwap"]
+    if wmix:
+        must += ["SubCAS"]
+    res, g = graph_replay(ctx, "Future", "FutureFine", "FutureFine_base.cfg", tag, rp,
+                          lambda st: proj_fine(st, rk, wk), header_fn=lambda k, st0: {"R": rk, "W": wk, "fine": True},
+                          constants=consts, must_take=must, max_paths=max_paths, tlc_kw={"workers": 4})
+    return res
+
+
+def run_mixes_fine(ctx, rp, jobs, max_paths=None, par=4):
+    from concurrent.futures import ThreadPoolExecutor
+    errs = []
+
+    def one(k):
+        if len(ctx.violations) >= 3:
+            return
+        r, w = jobs[k]
+        try:
+            run_mix_fine(ctx, rp, r, w, "f%d" % k, max_paths=max_paths)
+        except Exception as e:
+            errs.append(e)
+    with ThreadPoolExecutor(max_workers=par) as ex:
+        list(ex.map(one, range(len(jobs))))
+    if errs:
+        raise errs[0]
+    ctx.extra["fine_mixes"] = ["%s|%s" % ("+".join(r), "+".join(w)) for r, w in jobs]
